@@ -53,4 +53,6 @@ FIXED_BY_SUBJECT = {
    ('C08', 'indefinite-length SEQUENCE with more components than declared leaked IndexError')],
  "fix: empty explicitly tagged CHOICE in indefinite form returned a schema object": [
    ('C08', '61 80 00 00 decoded with a tagged CHOICE type returned a valueless CHOICE')],
+ "fix: CER/DER strict payload decoders were bypassed whenever a schema is given": [
+   ('C15', 'with a guiding type DER/CER accepted BOOLEAN 01, DER accepted segmented strings; DER accepted segmented character strings always')],
 }
